@@ -20,6 +20,7 @@ func init() {
 		"fmt.Errorf":   freshError,
 		"errors.New":   freshError,
 		"bytes.Equal":  bytesEqual,
+		"google.golang.org/protobuf/proto.Unmarshal": protoUnmarshal,
 		"crypto/sha512.Sum384": hashFn("sha384", 48),
 		"crypto/sha256.Sum256": hashFn("sha256", 32),
 		"crypto/sha512.Sum512": hashFn("sha512", 64),
@@ -126,4 +127,67 @@ func endianPut(n int, big bool) intrinsic {
 		f.x.syncViews(st)
 		return SV{}, true
 	}
+}
+
+// protoUnmarshal: the target message's fields become the (uninterpreted, deterministic) decoding of the
+// input bytes; nested messages, maps and repeated fields are arbitrary well-typed values.
+func protoUnmarshal(f *Frame, in ssa.Instruction, args []SV, cc *ssa.CallCommon, st *State, g string) (SV, bool) {
+	c := f.c()
+	m := args[1]
+	if m.Dyn == nil || m.DynV == nil || m.DynV.T == "" {
+		return SV{}, false
+	}
+	pt, ok := m.Dyn.Underlying().(*types.Pointer)
+	if !ok {
+		return SV{}, false
+	}
+	s, ok := pt.Elem().Underlying().(*types.Struct)
+	if !ok {
+		return SV{}, false
+	}
+	f.x.syncViews(st)
+	f.x.usedStub["model: proto.Unmarshal fills the message with a deterministic function of the input bytes (scalar and bytes fields) and arbitrary well-typed nested values; may fail"] = true
+	ref := m.DynV.T
+	where := f.where(in)
+	c.oblige("nil", f.sweepTags(), g, "(not (= "+ref+" 0))", where, "proto.Unmarshal into nil message")
+	input := c.bval(st, args[0].T, types.Typ[types.Uint8], g)
+	res := freshErrorOrNil(f, in, st, g)
+	okc := "(= (i.tid " + res.T + ") 0)"
+	st.bumpWM()
+	// ghost: remember which bytes a message object was decoded from
+	src := c.ghostVar("pbsrc", "(Array Int BV)")
+	okg := c.ghostVar("pbok", "(Array Int Bool)")
+	st.set(src, sto(st.get(src), ref, input))
+	st.set(okg, sto(st.get(okg), ref, okc))
+	for k := 0; k < s.NumFields(); k++ {
+		fld := s.Field(k)
+		h := c.fieldHeap(pt.Elem(), k)
+		f.x.frameCheck(st, h, ref, g, where)
+		nv := c.freshConst("pbv", c.sortOf(fld.Type()))
+		c.assume(g, c.wf(fld.Type(), nv, st.wm()))
+		st.set(h, sto(st.get(h), ref, nv))
+		if !fld.Exported() {
+			continue
+		}
+		fn, srt := f.x.pbFieldFn(pt.Elem(), k)
+		switch fld.Type().Underlying().(type) {
+		case *types.Basic:
+			c.assume(g, implies(okc, eq(nv, app(fn, input))))
+		case *types.Slice:
+			if srt == "BV" {
+				arr := sel(st.get(c.elemHeap(types.Typ[types.Uint8])), "(s.ref "+nv+")")
+				v := app("bv.of", arr, "(s.off "+nv+")", "(s.len "+nv+")")
+				c.assume(g, implies(okc, eq(v, app(fn, input))))
+				c.assume(g, fmt.Sprintf("(= (bv.len %s) (s.len %s))", v, nv))
+			}
+		}
+	}
+	return res, true
+}
+
+func freshErrorOrNil(f *Frame, in ssa.Instruction, st *State, g string) SV {
+	c := f.c()
+	e := c.freshConst("err", "Iface")
+	c.assume(g, c.wf(types.Universe.Lookup("error").Type(), e, st.wm()))
+	return tv(e)
 }
